@@ -589,7 +589,10 @@ func (ex *Exec) symLit(s value) (value, bool) {
 // text; the engine resolves symbolic literal markers.
 func symxIntOfLit(fr *frame, args []value) value {
 	if v, ok := fr.i.ex.symLit(args[0]); ok {
-		k, _ := kindOfValue(v)
+		k, isScalar := kindOfValue(v)
+		if !isScalar {
+			return tuple{uint64(0), false, false} // a string literal marker
+		}
 		switch v := v.(type) {
 		case sym:
 			return tuple{mk(fr.i.ex.ctx.Resize(v.t, 64, kindSigned(v.k)), types.Uint64), kindSigned(k), true}
@@ -602,7 +605,7 @@ func symxIntOfLit(fr *frame, args []value) value {
 
 // symxBytesOfLit(text string) ([]byte, bool)
 func symxBytesOfLit(fr *frame, args []value) value {
-	if v, ok := fr.i.ex.symLit(args[0]); ok {
+	if v, ok := fr.i.ex.symLit(args[0]); ok && isStr(v) {
 		return tuple{append([]value(nil), strBytes(v)...), true}
 	}
 	return tuple{[]value(nil), false}
